@@ -113,7 +113,7 @@ fn hist_n<const MAX: usize>(h: &Hist, obs: &mut Obs) -> CaseResult {
     Ok(())
 }
 
-fn hist(h: &Hist, obs: &mut Obs) -> CaseResult {
+pub fn hist(h: &Hist, obs: &mut Obs) -> CaseResult {
     match h.cap % 6 {
         0 => hist_n::<1>(h, obs),
         1 => hist_n::<2>(h, obs),
@@ -139,7 +139,7 @@ fn raw_n<const MAX: usize>(slice: &[u64], obs: &mut Obs) -> CaseResult {
     Ok(())
 }
 
-fn raw_case(c: &(u8, Vec<u64>, u8, bool), obs: &mut Obs) -> CaseResult {
+pub fn raw_case(c: &(u8, Vec<u64>, u8, bool), obs: &mut Obs) -> CaseResult {
     let (cap, body, len_sel, zero_first) = c;
     let max = [1usize, 2, 3, 8, 9, 8192][(*cap % 6) as usize];
     // lengths 0..=MAX+1 (capped at 64 for 8192, plus the exact boundary lengths)
